@@ -25,7 +25,7 @@ def fam_ws(rnd, n):
                 h.append("submit:%d" % rnd.choice([1, 2, 2]))
             elif r < 0.22 and restarts < 2 and j > 0:
                 restarts += 1
-                h.append("%s:%d" % (rnd.choice(["restart", "restart", "restart", "restart-norec"]), rnd.choice([0, 8, 15, 25, 35, 45, 55, 65, 75, 85, 95, 100, 100, 100])))
+                h.append("%s:%d" % (rnd.choice(["restart", "restart", "restart", "restart-norec", "restart-aged"]), rnd.choice([0, 8, 15, 25, 35, 45, 55, 65, 75, 85, 95, 100, 100, 100])))
             elif stale and r < 0.30:
                 h.append("sleep:280")
             else:
@@ -75,7 +75,7 @@ def translate(events):
                     continue     # the engine repeats many writes
                 out.append(ln)
             elif k == "XRestart":
-                out.append({"ev": "XRestart", "st": e["st"], "ad": e["ad"], "idx": e["idx"], "recovery": bool(e["recovery"])})
+                out.append({"ev": "XRestart", "st": e["st"], "ad": e["ad"], "idx": e["idx"], "aged": [bool(x) for x in e["aged"]], "recovery": bool(e["recovery"])})
         if out and out[0]["ev"] == "Config":
             traces[scn] = out
             extra[scn] = flags
